@@ -98,6 +98,9 @@ def instances(tier, rng):
                 for var in variants:
                     g += 1
                     flags = flags_of(cls)
+                    # some groups run under a finite time limit with the wrapper's own (signal based) timeout armed as well:
+                    # generous enough never to fire, but a different route through SolverWrapper.optimize
+                    sopt = {"time_limit": 300, "use_also_custom_timeout": True} if rng.random() < 0.3 else None
                     full = (not quick) and len(flags) <= 6 and rng.random() < 0.15
                     for vec in vectors(flags, rng, 3 if quick else 6, full=full):
                         r = C.base(u, cls, var.get("mode", "edge"))
@@ -107,6 +110,8 @@ def instances(tier, rng):
                         if cls not in C.MINCLS:
                             r["k"] = max(1, len(u["proutes"]))
                         r["opt"] = dict(vec)
+                        if sopt:
+                            r["sopt"] = dict(sopt)
                         r["grp"] = g
                         insts.append(r)
     # DAG motifs, a constraint crossing the planted routes whose FIRST edge alone carries the requested length fraction:
